@@ -247,7 +247,14 @@ def rule_control(ctx: Ctx, rep: Report) -> None:
     rep.ob("C12.control", "assert_valid_control_block", any("% 32" in c.subject and c.op == "!=" and c.value == 0 for c in refusal_constraints(ctx, av)), av.where(), "(len - 1) % 32 != 0 refused")
 
 
+def rule_params_forwarded_(ctx: Ctx, rep: Report) -> None:
+    """C12.params_forwarded: a parameter is handed on to callees that have a parameter of the same name (see sigcommon.rule_params_forwarded)."""
+    from rules.sigcommon import rule_params_forwarded
+    rule_params_forwarded(ctx, rep, "C12.params_forwarded", ('btclib.script.taproot',), 10)
+
+
 RULES = [
+    ("C12.params_forwarded", rule_params_forwarded_),
     ("C12.tweak", rule_tweak),
     ("C12.sibling_order", rule_sibling_order),
     ("C12.shapes", rule_shapes),
